@@ -116,6 +116,8 @@ ZonedCells ==
      \cup {[op |-> "MiscX.farProviderQuery", args |-> [zone |-> z, k |-> k, neg |-> n]] : z \in {"America/New_York", "Europe/Berlin", "Asia/Tokyo"}, k \in {12, 13, 14, 15, 18}, n \in BOOLEAN}
      \* an instant printed without a time zone, with a provider that has no data at all: no zone is involved, so an answer
      \cup {[op |-> "MiscX.instantTextNoData", args |-> [ns |-> i]] : i \in Insts}
+     \* texts with n digits where a few are expected (offset seconds fraction, time fraction, year, duration field): any length, an answer
+     \cup {[op |-> "MiscX.longDigits", args |-> [where |-> w, n |-> n]] : w \in {"offset-fraction", "time-fraction", "zone-offset-fraction", "duration-field", "duration-fraction", "year"}, n \in {9, 10, 255, 256, 261, 65536, 70000}}
      \* a property bag with an extreme year in the calendars whose arithmetic is this crate's or plain ICU arithmetic (the astronomical
      \* and lunisolar ones assert inside icu_calendar far from the present: C16's recorded finding)
      \cup {[op |-> "MiscX.partialYear", args |-> [cal |-> c, year |-> y, era |-> e]] :
